@@ -17,6 +17,7 @@ import (
 // Obligation is one proof duty: hyps |- goal.
 type Obligation struct {
 	Abstracted []string // auto-abstracted calls on the path (failure needs replay to count)
+	Static     bool     // structural duty (call cycle, second Lock): independent of paths and of evaluable clauses
 	Name   string // unique, stable name: <func>/<kind>/<site>
 	Func   string // function under contract
 	Kind   string // safety-index, safety-slice, requires, ensures, invariant-entry, invariant-preserved, frame, ...
